@@ -583,4 +583,85 @@ theorem init_inv {S : Sem V W} {N L : Fn} {ρ : Rho} {cert : List KMap} (hc : Ch
     · have := h2 (Or.inr h3); subst this; exact absurd h3 h1
     · simp [h1, h3]
 
+/-! ### whole programs: calls resolved inside the calculus -/
+
+/-- how operations call functions of the program: `callee f vs w` says whether operation `f` on
+argument values `vs` in world `w` is a call (static, closure, interface method — resolved from the
+values) of function number `g` with arguments `xs`; `ret` turns the callee's outcome into the
+result of the call instruction in the caller (including the caller-side treatment of a panicking
+callee: deferred calls, recovery). Everything else is `base`. -/
+structure PSem (V W : Type) where
+  base : Sem V W
+  callee : String → List V → W → Option (Nat × List V)
+  ret : String → List V → Outcome V W → OpRes V W
+  fuel : Nat
+
+def withOp {V W : Type} (S : Sem V W) (op : String → List V → W → OpRes V W) : Sem V W :=
+  { cval := S.cval, op := op, sel := S.sel, undef := S.undef }
+
+/-- the semantics of operations when calls may nest `d` deep -/
+def semD {V W : Type} (P : PSem V W) (fns : List Fn) : Nat → Sem V W
+  | 0 => withOp P.base fun f vs w =>
+      match P.callee f vs w with
+      | some _ => .abort P.base.undef w
+      | none => P.base.op f vs w
+  | d + 1 => withOp P.base fun f vs w =>
+      match P.callee f vs w with
+      | some (g, xs) =>
+        (match fns[g]? with
+         | some F => P.ret f vs (exec (semD P fns d) F P.fuel xs w)
+         | none => .abort P.base.undef w)
+      | none => P.base.op f vs w
+
+/-- two functions that no semantics of operations can tell apart -/
+def FnEquiv (N L : Fn) : Prop :=
+  ∀ (V W : Type) (S : Sem V W) (fuel : Nat) (args : List V) (w : W), exec S N fuel args w = exec S L fuel args w
+
+theorem fnEquiv_of_liftCheck {N L : Fn} {ρ : Rho} {cert : List KMap} (h : liftCheck N L ρ cert = true) : FnEquiv N L := by
+  intro V W S fuel args w
+  have hc := checked_of_liftCheck h
+  exact run_sim hc fuel 0 none _ _ ⟨hc.entry0, init_inv hc args w⟩
+
+/-- pointwise equivalent function tables -/
+def TabEquiv (Ns Ls : List Fn) : Prop :=
+  Ns.length = Ls.length ∧ ∀ (g : Nat) (N L : Fn), Ns[g]? = some N → Ls[g]? = some L → FnEquiv N L
+
+theorem semD_eq {V W : Type} (P : PSem V W) {Ns Ls : List Fn} (h : TabEquiv Ns Ls) :
+    ∀ d, semD P Ns d = semD P Ls d := by
+  intro d
+  induction d with
+  | zero => rfl
+  | succ d ih =>
+    simp only [semD]
+    congr 1
+    funext f vs w
+    cases hc : P.callee f vs w with
+    | none => rfl
+    | some ga =>
+      obtain ⟨g, xs⟩ := ga
+      simp only
+      cases hN : Ns[g]? with
+      | none =>
+        have : Ls[g]? = none := by
+          rw [List.getElem?_eq_none_iff] at hN ⊢
+          rw [← h.1]; exact hN
+        rw [this]
+      | some N =>
+        cases hL : Ls[g]? with
+        | none =>
+          have : Ns[g]? = none := by
+            rw [List.getElem?_eq_none_iff] at hL ⊢
+            rw [h.1]; exact hL
+          rw [this] at hN; cases hN
+        | some L =>
+          simp only
+          rw [ih, h.2 g N L hN hL]
+
+
+/-- every pair of the two tables is accepted by the validator (with some relation and certificate) -/
+theorem tabEquiv_of_liftCheck {Ns Ls : List Fn} (hlen : Ns.length = Ls.length)
+    (h : ∀ (g : Nat) (N L : Fn), Ns[g]? = some N → Ls[g]? = some L → ∃ ρ cert, liftCheck N L ρ cert = true) :
+    TabEquiv Ns Ls :=
+  ⟨hlen, fun g N L hN hL => let ⟨_, _, hc⟩ := h g N L hN hL; fnEquiv_of_liftCheck hc⟩
+
 end Verif.C01.Core
